@@ -57,7 +57,7 @@ def lattice(rng, long_axis=None):
 def run(tier, seed):
     rng = random.Random(seed)
     T = Tally(max_fail=8)
-    reps = 100 if tier == 'quick' else 1200
+    reps = 100 if tier == 'quick' else 4000
     k = 0
     # directed minimal cases first (the tally keeps the first failures)
     two = [[0, 0], [1, 0]]
@@ -101,7 +101,7 @@ def run(tier, seed):
         cells = [[i, j] for i in range(nx) for j in range(ny)]
         T.run('forecast_ascii', {'lon0': lon0, 'lat0': lat0, 'dh': dh, 'cells': cells, 'mags': ['4.95', '5.05'], 'dmag': '0.1', 'max_cells': 400},
               key=('named', name))
-    qreps = 30 if tier == 'quick' else 300
+    qreps = 30 if tier == 'quick' else 600
     for r in range(qreps):
         qk = rand_quadkeys(rng, rng.randint(1, 5), rng.choice([0.3, 0.7]), complete=bool(r % 2))
         mags, dm = MAGSETS[r % len(MAGSETS)]
